@@ -166,6 +166,19 @@ fn apply(w: &mut World, h: usize, x: &Hostile) {
                     txt.push((format!("key{i}"), Some(big.clone())));
                 }
             }
+            // a third of the registrations carry a hostile property list instead (sizes around the 255-byte
+            // limit of key=value, empty and over-long keys, '=' in keys, binary values, duplicates)
+            let mut pr = Rng::new(util::fnv_str(&format!("{inst}|{host}|{port}")));
+            if !*big_txt && pr.chance(1, 3) {
+                txt = crate::props::c16::gen_list(&mut pr);
+                if pr.chance(1, 2) {
+                    // right at the limit: key=value of exactly 255 and 256 bytes (also with an empty value)
+                    let k = *pr.pick(&[1usize, 5, 100, 250, 254, 255]);
+                    let total = *pr.pick(&[255usize, 256]);
+                    let at = pr.usize(txt.len() + 1);
+                    txt.insert(at, ("L".repeat(k), Some(vec![b'v'; total.saturating_sub(k + 1)])));
+                }
+            }
             let mut reg = World::reg_info(ty, inst, host, &addrs, *port, &[]);
             reg.txt = txt;
             reg.addr_auto = *auto;
@@ -604,11 +617,11 @@ pub fn run(report: &Report, tier: &Tier) {
     scripted(&mut l);
     report.merge(l);
     let seed = report.seed;
-    let n: u64 = if tier.thorough { 200_000 } else { 2_500 };
+    let n: u64 = if tier.thorough { 600_000 } else { 2_500 };
     run_parallel(report, n, threads(), tier.budget_s * 0.6, |i, l| {
         api_case(util::mix(seed, 0xC15_0000 + i), l);
     });
-    let n: u64 = if tier.thorough { 40_000 } else { 500 };
+    let n: u64 = if tier.thorough { 120_000 } else { 500 };
     run_parallel(report, n, threads(), tier.budget_s * 0.4, |i, l| {
         stream_case(util::mix(seed, 0xC15_8000 + i), l);
     });
